@@ -555,3 +555,37 @@ Theorem C01_request_spec_survivors_generated : forall O f ds method raw m sts,
   = spec_of_outcome (fst (gen_call (match_pat_m O) (ren_mapper f m) method raw)).
 Proof. exact gen_request_spec_survivors. Qed.
 Print Assumptions C01_request_spec_survivors_generated.
+
+(* ---- proof-only round: soundness of the compiled matcher for ANY end of the compiled regex, and the
+   "render ++ newline" form for the '$' anchor (Proofs/C01_dollar.v) *)
+Require Import Verif.Proofs.C01_dollar.
+
+(* whatever the end continuation accepts: the captures of the placeholders are in their languages, their
+   rendering is a prefix of the text and the continuation accepted exactly what is left *)
+Theorem C01_mi_sound_any : forall ek O its s caps,
+  mi ek O its s = Some caps ->
+  exists hc ec rest,
+    caps = hc ++ ec /\ ek rest = Some ec /\ s = render its hc ++ rest
+    /\ (forall e, render its (hc ++ e) = render its hc ++ render [] e)
+    /\ (forall st e, caps_ok O st [] e = true -> caps_ok O st its (hc ++ e) = true).
+Proof. exact mi_sound_any. Qed.
+Print Assumptions C01_mi_sound_any.
+
+(* the '$' anchor (with or without DOTALL): a match is a decomposition of the whole path, or of the path
+   without ONE final newline -- the full extent of the C01-dollar-newline defect *)
+Theorem C01_match_sound_dollar : forall b O p s d,
+  match_pat_with Dollar b O p s = Some d ->
+  exists caps, d = mk_dict (items p) (star p) caps
+    /\ caps_ok O (star p) (items p) caps = true
+    /\ (s = render (items p) caps \/ s = render (items p) caps ++ [c_nl]).
+Proof. exact match_sound_dollar. Qed.
+Print Assumptions C01_match_sound_dollar.
+
+(* any anchor, any DOTALL flag: only the '$' anchor can leave something over, and only one newline *)
+Theorem C01_match_sound_prefix : forall a b O p s d,
+  match_pat_with a b O p s = Some d ->
+  exists caps rest, d = mk_dict (items p) (star p) caps /\ caps_ok O (star p) (items p) caps = true
+    /\ s = render (items p) caps ++ rest
+    /\ (rest = [] \/ (a = Dollar /\ rest = [c_nl])).
+Proof. exact match_sound_prefix. Qed.
+Print Assumptions C01_match_sound_prefix.
